@@ -218,6 +218,15 @@ class Evaluator:
             return None
         if t[0] == "mem":
             return [[(v >> b) & 1 for b in range(8)] for v in t[1]]
+        if t[0] == "cdef" and self.prog is not None:
+            # a named `const X: [u8; N]`: its evaluated bytes
+            c = self.prog.consts.get(t[1])
+            ty = (c or {}).get("ty") or {}
+            mem = ((c or {}).get("val") or {}).get("mem")
+            if ty.get("k") == "array" and (ty.get("t") or {}).get("k") == "int" and ty["t"].get("w") == 8 and isinstance(mem, list) \
+                    and len(mem) == ty.get("n") and len(mem) <= 64:
+                return [[(v >> b) & 1 for b in range(8)] for v in mem]
+            return None
         if t[0] == "aggr" and t[1] == "array":
             out = []
             for o in t[2]:
